@@ -91,6 +91,10 @@ fn impl_text(t: &str) -> String {
         Ok(Some(h)) => h,
         _ => return "err-string_to_bytes".into(),
     };
+    // a second conversion into the SAME output variable (the runner has stored the first handle
+    // there): the first handle keeps its bytes
+    ctx.variables.insert("out".to_string(), h.clone());
+    let _ = call(&mut ctx, "string_to_bytes", &[val("another text \u{e9}")]);
     let bytes = match bytes_of(&mut ctx, &h) {
         Some(b) => b,
         None => return "err-nohandle".into(),
@@ -460,6 +464,14 @@ fn gen_json(rng: &mut Rng, depth: usize) -> Value {
             2 | 3 => Value::Number(gen_number(rng)),
             _ => Value::String(gen_text(rng, 6)),
         }
+    } else if depth >= 2 && rng.chance(1, 500) {
+        // a WIDE document: a flat list of 130-300 small records
+        Value::Array((0..130 + rng.below(40)).map(|i| {
+            let mut m = Map::new();
+            m.insert("id".to_string(), Value::String(i.to_string()));
+            m.insert("tags".to_string(), Value::Array(vec![Value::String("a".into()), Value::String("b".into())]));
+            Value::Object(m)
+        }).collect())
     } else if rng.chance(1, 2) {
         Value::Array((0..rng.below(7)).map(|_| gen_json(rng, depth - 1)).collect())
     } else {
@@ -787,6 +799,14 @@ impl Prop for C17Prop {
         // finding C17/properties-escape-cut-at-buffer-end: the `\u` escape of the last character does
         // not fit into what is left of the writer's 256-byte buffer (and two values next to the class
         // that round-trip)
+        // values whose escaped characters fall around columns 100-130 of the written line
+        for n in 100usize..=130 {
+            for tail in [" tail", "\\tail", "\ttab", "=x:y#z!"] {
+                let mut m = BTreeMap::new();
+                m.insert("k".to_string(), format!("{}{}", "a".repeat(n), tail));
+                out.push(props_case(&m));
+            }
+        }
         for n in [250usize, 251, 253, 254, 255, 256, 765] {
             let mut m = BTreeMap::new();
             m.insert("k".to_string(), format!("{}中", "a".repeat(n)));
